@@ -123,7 +123,6 @@ def panicSites : List String := [
   "gtfs.parseStartTime: index startTimeMatch[2]  [guard: regex-match]",
   "gtfs.parseStartTime: index startTimeMatch[3]  [guard: regex-match]",
   "gtfs.parseStops: index stops[i]  [guard: range-index]",
-  "gtfs.parseStops: index stops[i]  [unguarded: gtfs: index []gtfs.Stop]",
   "gtfs.parseStops: index stops[parentStopIndex]  [unguarded: gtfs: index []gtfs.Stop]",
   "gtfs.parseTransfers: index stops[i]  [guard: range-index]",
   "gtfs.parseTripUpdate: deref *stopTimeEvent.Delay  [guard: nil-checked]",
@@ -147,9 +146,7 @@ def panicSites : List String := [
   "journal.stopIDOrEmpty: deref *stopTimeUpdate.StopID  [guard: nil-checked]"]
 
 /-- every assignment whose target is (reached through) a package-level variable -/
-def globalWrites : List String := [
-  "gtfs.parseStartDate: startDateCache",
-  "gtfs.parseStartDate: startDateCache[key]"]
+def globalWrites : List String := []
 
 /-- in the parse entry points and the extension methods: assignments through a parameter or the receiver, as "pkg.func: root: target" -/
 def sharedWrites : List String := [
